@@ -441,7 +441,7 @@ func (s *Sim) result() Result {
 	} else {
 		r.Tape = s.cfg.Tape
 	}
-	r.SimTime = s.simElapsed
+	r.SimTime = s.simElapsed - time.Duration(s.quiesc)*horizon
 	for i := 0; i < s.nworkers; i++ {
 		w := &s.workers[i]
 		if w.state != stDone {
